@@ -622,7 +622,13 @@ def process(ctx, harness, modeld, cfg_line, scripts, string_lines, nsc_lines, zf
     else:
         real, rc, err = run_lines([harness], lines_real)
         if len(real) != len(lines_real):
-            raise RuntimeError("native harness died after %d of %d lines: %s\nlast line: %s" % (len(real), len(lines_real), err[-2000:], lines_real[min(len(real), len(lines_real) - 1)]))
+            # the real code crashed the interpreter (memory corruption, fatal error): the first unanswered line is the culprit
+            at = len(real)
+            culprit = lines_real[min(at, len(lines_real) - 1)]
+            ctxt = script_upto(scripts, flat[at][0], flat[at][1]) if at < len(flat) else [culprit]
+            ctx.report("crash:" + " ; ".join(ctxt[-12:]), "the runtime functions crashed the native interpreter (rc=%s) while executing `%s`" % (rc, culprit),
+                       {"script": ctxt, "failing_line": culprit, "stderr_tail": err[-1500:]})
+            return [], 1, {"crash": 1}, set(), [], at
     # pass 2: capacity hints
     lines_model = [cfg_line]
     for (name, k, l), out in zip(flat, real):
@@ -649,7 +655,7 @@ def process(ctx, harness, modeld, cfg_line, scripts, string_lines, nsc_lines, zf
     for idx, ((name, k, l), out) in enumerate(zip(flat, real)):
         op = l.split()[0]
         stats[op] = stats.get(op, 0) + 1
-        if name != cur:
+        if name != cur or op == "reset":
             cur, desync, prefix = name, False, hashlib.sha1()
         prefix.update(l.encode())
         if op not in ("reset", "dump", "nil") and "panic" not in out and out != "bad-op":
